@@ -65,6 +65,19 @@ MUTANTS = [
 ]
 
 
+# behaviour-preserving edits: NO check may fire on these (run with --benign)
+BENIGN = [
+    ('b01-dot-reassociated', 'src/f32/vec3.rs', '(self.x * rhs.x) + (self.y * rhs.y) + (self.z * rhs.z)\n    }\n\n    /// Returns a vector where every component is the dot product', '(self.z * rhs.z) + ((self.x * rhs.x) + (self.y * rhs.y))\n    }\n\n    /// Returns a vector where every component is the dot product', ['C02', 'C03', 'C07', 'C08', 'C20'], 'dot product summed in another order (a few-epsilon property)'),
+    ('b02-transpose-via-rows', 'src/f32/mat3.rs', 'x_axis: Vec3::new(self.x_axis.x, self.y_axis.x, self.z_axis.x),\n            y_axis: Vec3::new(self.x_axis.y, self.y_axis.y, self.z_axis.y),\n            z_axis: Vec3::new(self.x_axis.z, self.y_axis.z, self.z_axis.z),', 'x_axis: self.row(0),\n            y_axis: self.row(1),\n            z_axis: self.row(2),', ['C03', 'C06', 'C07', 'C18'], 'transpose written through row()'),
+    ('b03-length-recip-direct', 'src/f32/vec3.rs', 'self.length().recip()', '1.0 / self.length()', ['C02', 'C07', 'C01'], 'length_recip written as a division'),
+    ('b04-min-element-other-shuffles', 'src/f32/sse2/vec3a.rs', 'let v = _mm_min_ps(v, _mm_shuffle_ps(v, v, 0b01_01_10_10));\n            let v = _mm_min_ps(v, _mm_shuffle_ps(v, v, 0b00_00_00_01));', 'let v = _mm_min_ps(v, _mm_shuffle_ps(v, v, 0b00_00_00_01));\n            let v = _mm_min_ps(v, _mm_shuffle_ps(self.0, self.0, 0b10_10_10_10));', ['C01', 'C08', 'C07'], 'min_element folds the lanes in another (still hidden-lane-free) order'),
+    ('b05-element-sum-order', 'src/f32/vec3.rs', 'self.x + self.y + self.z\n    }', 'self.z + self.y + self.x\n    }', ['C02', 'C01', 'C07'], 'element_sum in another order'),
+    ('b06-write-to-slice-explicit', 'src/f32/vec3.rs', 'slice[..3].copy_from_slice(&self.to_array());', 'assert!(slice.len() >= 3);\n        slice[0] = self.x;\n        slice[1] = self.y;\n        slice[2] = self.z;', ['C17', 'C18', 'C14'], 'write_to_slice with an explicit length assert and element stores'),
+    ('b08-is-normalized-rewritten', 'src/f32/vec3.rs', 'math::abs(self.length_squared() - 1.0) <= 2e-4', '(self.length_squared() - 1.0).abs() <= 2e-4', ['C20', 'C02', 'C07'], 'is_normalized through the inherent abs'),
+    ('b09-cross-operand-order', 'src/f32/vec3.rs', 'x: self.y * rhs.z - rhs.y * self.z,', 'x: self.y * rhs.z - self.z * rhs.y,', ['C02', 'C03', 'C07', 'C11'], 'commuted product inside cross'),
+]
+
+
 def sh(cmd, **kw):
     return subprocess.run(cmd, shell=True, stdout=subprocess.PIPE, stderr=subprocess.STDOUT, **kw).stdout.decode('utf8', 'replace')
 
@@ -89,7 +102,8 @@ def main():
     fresh_copy()
     env = dict(os.environ, GLAM_REPO=SCR, GLAM_VERIF_OUT=OUT)
     results = []
-    for mut in MUTANTS:
+    benign = '--benign' in sys.argv
+    for mut in (BENIGN if benign else MUTANTS):
         (mid, rel, old, new, checks, note) = mut[:6]
         mtier = mut[6] if len(mut) > 6 else tier
         if only and mid not in only:
@@ -113,13 +127,24 @@ def main():
             if 'VIOLATION property=' in out:
                 fired.append(c)
                 detail[c] = [l.strip()[:260] for l in lines[:2]]
-        print('%-38s %s  fired=%s  (%.0fs)' % (mid, 'CAUGHT' if fired else 'MISSED', ','.join(fired) or '-', time.time() - t0))
+        if benign:
+            print('%-38s %s  fired=%s  (%.0fs)' % (mid, 'FALSE-ALARM' if fired else 'quiet', ','.join(fired) or '-', time.time() - t0))
+            for c_, d_ in detail.items():
+                print('      ', c_, d_[:1])
+        else:
+            print('%-38s %s  fired=%s  (%.0fs)' % (mid, 'CAUGHT' if fired else 'MISSED', ','.join(fired) or '-', time.time() - t0))
         sys.stdout.flush()
         results.append({'id': mid, 'file': rel, 'note': note, 'checks_run': checks, 'fired': fired, 'status': 'caught' if fired else 'missed', 'first_reports': detail})
     sh('cd %s && git checkout -q -- .' % SCR)
     if '--keep' not in sys.argv:
         shutil.rmtree(SCR, ignore_errors=True)
         shutil.rmtree(OUT, ignore_errors=True)
+    if benign:
+        alarms = [r['id'] for r in results if r.get('fired')]
+        if not only:
+            json.dump({'tier': tier, 'benign_edits': results}, open(os.path.join(VERIF, 'selftest_benign_results.json'), 'w'), indent=1)
+        print('summary: %d benign edits, false alarms: %s' % (len(results), alarms))
+        return 1 if alarms else 0
     if not only:
         json.dump({'tier': tier, 'mutants': results}, open(os.path.join(VERIF, 'selftest_results.json'), 'w'), indent=1)
     missed = [r['id'] for r in results if r['status'] != 'caught']
